@@ -503,9 +503,178 @@ class Engine:
     def _diverge_key(self, world, old, new, got, want):
         return "diverged"
 
-    # placeholders, filled in below
+    # ------------------------------------------------------------------ C02
+    def _holders(self, world, path):
+        """independent ACL walk over the ownership tables: returns (covered, holders of the last row, rule, all_mode)
+        covered is False as soon as one level of the path is owned by no generator"""
+        rb = world.rb
+        level_owned = [o for o in world.owners]
+        rules = rb.rules
+        all_mode = False
+        holders, rule = [], None
+        for i, row in enumerate(path):
+            if all_mode:
+                holders, rule = ["ALL"], None
+                continue
+            m = W.match_direct(rules, rb.globals, row, rb.rev) or W.match_removal(rules, rb.globals, row, rb.rev)
+            if m is None:
+                return False, [], None, False
+            rule = m[0]
+            holders = [o for owned in level_owned for o in owned if o.rule is rule]
+            if not holders:
+                return False, [], rule, False
+            if any(o.children == "ALL" for o in holders):
+                all_mode = True
+            level_owned = [o.children for o in holders if o.children != "ALL"]
+            rules = rule.children
+        return True, holders, rule, all_mode
+
+    def _unmanaged_view(self, world, tree, level_owned=None, rules=None):
+        rb = world.rb
+        level_owned = world.owners if level_owned is None else level_owned
+        rules = rb.rules if rules is None else rules
+        out = odict()
+        for row, sub in tree.items():
+            m = W.match_direct(rules, rb.globals, row, rb.rev)
+            r = m[0] if m else None
+            holders = [o for owned in level_owned for o in owned if o.rule is r] if r is not None else []
+            if not holders:
+                out[row] = ("U", copy.deepcopy(sub))
+            elif any(o.children == "ALL" for o in holders):
+                continue
+            elif r.block:
+                inner = self._unmanaged_view(world, sub, [o.children for o in holders], r.children)
+                if inner:
+                    out[row] = ("M", inner)
+        return out
+
+    def _check_unmanaged(self, world, view, tree, removed_paths, path=()):
+        """every unmanaged line of `view` is still in `tree`, unless an owned ancestor block was removed by a command"""
+        for row, (kind, body) in view.items():
+            p = path + (row,)
+            if kind == "U":
+                if row not in tree:
+                    return ("unmanaged-line-touched", p, "missing or rewritten")
+                if body != tree[row]:
+                    return ("unmanaged-line-touched", p, "subtree changed")
+            else:
+                if p in removed_paths:
+                    continue              # an owned, deletable block was removed by a command (and maybe re-created):
+                                          # judged at the removal event, its former unmanaged content is gone legitimately
+                if row not in tree:
+                    return ("unmanaged-line-touched", p, "owning block vanished without a removal command")
+                res = self._check_unmanaged(world, body, tree[row], removed_paths, p)
+                if res:
+                    return res
+        return None
+
     def _run_c02(self, ch, world, steps_log):
-        raise HarnessError("C02 mode not built")
+        rb = world.rb
+        nsteps = 2 + ch.draw(3, "nsteps")
+        found = []
+        state = {}
+
+        def hook(inv, device, k, c):
+            if found:
+                return
+            st = state[inv.id]
+            level, row = getattr(c, "level", 0), c.cmd
+            body_lo, body_hi = 1, st["n"] - st["after"]
+            if body_lo <= k < body_hi:
+                st["stack"] = st["stack"][:level] + [row]
+                path = tuple(st["stack"])
+                if not (rb.exit and row == rb.exit and level > 0):
+                    cov, holders, rule, all_mode = self._holders(world, path)
+                    if not cov:
+                        found.append(V("command-outside-acl", "uncovered-command", device=inv.hostname, command_index=k,
+                                       path=list(path), commands=world.received.get(inv.id)))
+                        return
+                    world.probe("command_checked_against_acl")
+            tree = device._cfg() if device.in_config and device.session["two_stage"] and device.candidate is not None else device.running
+            # removal events logged by the device since the last command
+            for (idx, rpath, uid, subtree) in device.removals[st["seen_removals"]:]:
+                cov, holders, rule, all_mode = self._holders(world, rpath)
+                if not cov:
+                    found.append(V("unmanaged-line-removed", "unmanaged-removed", device=inv.hostname, command_index=k, command=row,
+                                   line=list(rpath), commands=world.received.get(inv.id)))
+                    return
+                if not all_mode and holders and all(o.eff_cant_delete(rb.rev) for o in holders):
+                    # narrow signature of the known finding: the line belongs to an %ordered rule and is still wanted
+                    # (it is being MOVED: deleted and re-created); a true deletion of a cant_delete line is keyed apart
+                    node = world.desired[inv.id]
+                    for seg in rpath:
+                        node = node.get(seg) if isinstance(node, dict) else None
+                        if node is None:
+                            break
+                    key = "ordered-row-moved" if (rule is not None and rule.ordered and node is not None) else "cant-delete-removed"
+                    found.append(V("cant-delete-line-removed", key, device=inv.hostname, command_index=k, command=row,
+                                   line=list(rpath), lost_children=subtree, commands=world.received.get(inv.id)))
+                    return
+                st["removed_paths"].add(tuple(rpath))
+                world.probe("removal_of_owned_deletable_line")
+            st["seen_removals"] = len(device.removals)
+            res = self._check_unmanaged(world, st["view"], tree, st["removed_paths"])
+            if res:
+                found.append(V(res[0], "unmanaged-touched", device=inv.hostname, command_index=k, command=row, line=list(res[1]),
+                               why=res[2], commands=world.received.get(inv.id)))
+
+        for step in range(nsteps):
+            last = step == nsteps - 1
+            for d in world.inv:
+                prev = world.desired[d.id]
+                mode = ch.draw(4, "desired-mode")
+                if mode == 0 or not prev:
+                    world.desired[d.id] = W.gen_tree(ch, rb)
+                elif mode == 1:
+                    world.desired[d.id] = W.mutate_tree(ch, rb, world.dev[d.id].running)
+                else:
+                    world.desired[d.id] = W.mutate_tree(ch, rb, prev)
+                if ch.draw(3, "oob") == 0:
+                    world.fire("oob_edit")
+                    world.dev[d.id].running = W.mutate_tree(ch, rb, world.dev[d.id].running)
+            self._draw_faults(ch, world, allow_faults=not last and ch.draw(2, "faulty-step") == 1)
+            pre = {d.id: copy.deepcopy(world.dev[d.id].running) for d in world.inv}
+            for d in world.inv:
+                dv = world.dev[d.id]
+                dv.anomalies, dv.removals = [], []
+                view = self._unmanaged_view(world, dv.running)
+                if view:
+                    world.probe("device_has_unmanaged_lines")
+                state[d.id] = {"view": view, "stack": [], "seen_removals": 0, "removed_paths": set(), "n": 0, "after": 0}
+            after_len = len(W.expected_wrapper(world.hw, True, True)[1])
+
+            def hook_with_len(inv, device, k, c, _after=after_len):
+                st = state[inv.id]
+                st["n"] = len(world.received.get(inv.id, ()))
+                st["after"] = _after
+                hook(inv, device, k, c)
+            world.cmd_hook = hook_with_len
+            rc, deployer, out = self.deploy(world, no_check_diff=True)
+            world.cmd_hook = None
+            steps_log.append({"step": step, "rc": rc, "commands": sum(len(v) for v in world.received.values()),
+                              "fetch_faults": {k: v.get("fail") or "stall" for k, v in world.fetch_plan.items()},
+                              "cuts": {k: v.get("cut") for k, v in world.deploy_plan.items()}})
+            if found:
+                v = found[0]
+                v["detail"]["step"] = step
+                v["detail"]["device_before"] = _plain(pre.get(int(v["detail"]["device"][3:]), {}))
+                v["detail"]["desired"] = _plain(world.desired.get(int(v["detail"]["device"][3:]), {}))
+                return v
+            for d in world.inv:
+                dv = world.dev[d.id]
+                if world.fetch_plan.get(d.id, {}).get("fail"):
+                    if W.norm(dv.running, rb) != W.norm(pre[d.id], rb):
+                        return V("device-changed-after-failed-fetch", "fetch-fail", step=step, device=d.hostname)
+                    continue
+                # after the session: the running config must still hold every unmanaged line
+                res = self._check_unmanaged(world, state[d.id]["view"], dv.running, state[d.id]["removed_paths"])
+                if res:
+                    return V(res[0], "unmanaged-touched-final", step=step, device=d.hostname, line=list(res[1]), why=res[2],
+                             commands=world.received.get(d.id), device_before=pre[d.id], desired=world.desired[d.id])
+                bad = [a for a in dv.anomalies if a[1] in ("nesting-mismatch", "command-outside-config-mode")]
+                if bad:
+                    return V("device-rejected-command", bad[0][1], step=step, device=d.hostname, command=bad[0][3])
+        return None
 
     def _run_c09(self, ch, world, steps_log):
         raise HarnessError("C09 mode not built")
@@ -533,6 +702,12 @@ RULES = {
             "command), each un-cut deploy followed by a second deploy that must send nothing. Non-trivial = at least one deploy "
             "delivered >=1 command to a device. Distinct = SHA-256 over (vendor, per-step outcome, fault positions, final device "
             "configs)."),
-    "C02": "filled by the C02 mode",
+    "C02": ("one run = one seeded history against the real `annet deploy`: synthetic rulebook, 1-3 generators owning random "
+            "sub-forests of it (ACL texts with nesting, ~ %global, %cant_delete=0/1, the built-in `interface` default, blocks "
+            "shared between generators), devices holding owned and unmanaged lines, 2-4 steps of (new desired | out-of-band edit | "
+            "deploy, possibly cut at any command). After EVERY command the device executes: the command path is ACL-covered level "
+            "by level (independent matcher over the ownership tables), no unmanaged line was touched, no line covered only by "
+            "cant_delete rules was removed (judged on removal events). Non-trivial = >=1 command delivered. Distinct = SHA-256 "
+            "over (vendor, step outcomes, fault positions, final device configs)."),
     "C09": "filled by the C09 mode",
 }
